@@ -21,6 +21,7 @@ type Check struct {
 	Prop       string
 	W          Weights
 	Nontrivial func(s *Sim) bool
+	Src        Src  // shape of the source under test (ReadSrc)
 	Aborted    bool // a schedule blocked reproducibly: the run stops (each further one would cost the watchdog limit)
 	lines      []string
 	sums       []string
@@ -37,6 +38,7 @@ func (k *Check) input(sc *Scenario, s *Sim) string {
 // (the implementation blocks where one of its select branches must be ready) — it is reported
 // as a model/implementation disagreement and as a stranded call, with the schedule as input.
 func (k *Check) Exec(sc *Scenario, ch Chooser) *Sim {
+	sc.Src = k.Src
 	s := sc.Run(ch)
 	if s.Lost == "" {
 		return s
